@@ -8,8 +8,9 @@ HERE = os.path.dirname(os.path.dirname(os.path.abspath(__file__)))
 BASELINE_OFF = ("cd /repo && /venv/bin/python -m pytest -ra -q -p no:cacheprovider --timeout=900 "
                 "--continue-on-collection-errors --junitxml=/tmp/flow_record_baseline.junit.xml")
 
-LEVEL_TEXT = ("Static analysis of /repo's current source (ast, resolved symbols, constant folding, per-function CFG with "
-              "dominators, provenance / shape evaluation). Decides the named structural clauses of the property for ALL "
+LEVEL_TEXT = ("Static analysis of /repo's current source (ast brought into a canonical form - unknown helpers inlined, trivial aliases "
+              "substituted -, resolved symbols, constant folding, per-function CFG with dominators, branch facts compared as propositional "
+              "formulas, symbolic text structure, provenance / shape evaluation). Decides the named structural clauses of the property for ALL "
               "inputs at once - each clause is a necessary condition whose violation yields a concrete failing input - and "
               "does not decide the value-level behaviour (byte-exact encodings, arithmetic, third-party codecs), which no "
               "sound static argument in reach can bound. ")
@@ -35,17 +36,17 @@ CHECKS = {
             "the format-facts table transcribes the published format", "DESIGN.md 3/C02"),
     "C03": ("registry ownership (effect) analysis; dominance of emit-if-new over packing; event-handler chain resolution; injectivity of the hash input structure; branch facts of reader registration",
             "per-instance grow-only registries; emit-before-use for the record and every grouped member; register(notify) reaches the writer's descriptor "
-            "write; pack precedes the frame write; identifier injectivity (known finding F03); readers register every descriptor frame unconditionally",
+            "write; pack precedes the frame write; identifier injectivity (known finding F03); readers register every descriptor frame unconditionally; GroupedRecord.descriptors is a re-iterable container",
             "msgpack/json call the default hook depth-first", "DESIGN.md 3/C03"),
     "C04": ("CFG of the frame loop: generator/yield placement, exception-handler placement rule, raise-site inventory, def-use of the decoder's input, write ordering; wrapper-layer rule for decompressors",
             "lazy in-order delivery; only EOFError swallowed, outside the loop; exact-boundary prefix test; body = fresh read(size); writer builds the body "
-            "before writing prefix+body; no buffering layer around raising decompressors",
+            "before writing prefix+body; no buffering layer around raising decompressors; no handler on the write path swallows an I/O error",
             "msgpack rejects truncated bodies; decompressors raise on truncation", "DESIGN.md 3/C04"),
     "C05": ("who-may-call inventory of raw-store primitives; path enumeration to the slot store; interval reading of range guards; "
             "store-before-raise path rule with a no-throw refinement; dominator queries",
             "slots written only through Record.__setattr__; every path to the store converts or carries a legitimate bypass; "
             "bounded integer constructors accept exactly [0, 2^N-1]; setters never store before a reachable raise; naive->UTC "
-            "dominates every return of datetime.__new__; typed lists convert every non-instance element",
+            "dominates every return of datetime.__new__; typed lists convert every non-instance element; every value returned by datetime.__new__ is aware on all paths (must-dataflow), no local-time-sensitive call on a possibly naive value, component-wise copies keep fold; typedlist never returns its input unconverted; range guards test the argument",
             "constructors of field types are trusted to return values of their type; plain name-to-attribute assignments cannot raise",
             "DESIGN.md 3/C05"),
     "C10": ("sibling agreement over all reader classes: propositional implication check of branch facts at every yield; state re-initialisation (effect) analysis of the matcher; persistent-write scan of the match path; branch analysis of make_selector",
@@ -58,11 +59,11 @@ CHECKS = {
             "file signatures of the formats", "DESIGN.md 3/C11"),
     "C12": ("class-hierarchy analysis of call shapes vs. override signatures; argument-identity of the eq/hash projections; shape evaluation of all _pack methods vs. normaliser depth; pairing rule on the context manager; alias/mutation scan of the configuration object",
             "overrides accept the calls made on arbitrary Records; __eq__/__hash__ use the same _pack projection reading the global at call time; hash "
-            "normaliser closed over all packed shapes; __eq__ total; scoped override restored on all exits and the saved value cannot be mutated in place",
+            "normaliser closed over all packed shapes; __eq__ total; scoped override restored on all exits and the saved value cannot be mutated in place; __eq__ decides only by the projection or the non-Record refusal; every _pack on the hash path uses the projection arguments",
             "tuple hashing; generated classes inherit Record's methods", "DESIGN.md 3/C12"),
     "C13": ("must-pass-through on the timestamp constructor; who-may-read closure of the display setting; branch-fact check on every text conversion inside serialisers; form table of the binary encoder; float-epoch scan",
             "naive->UTC dominates returns; display setting read only by __str__/__repr__; no serialiser renders a possible timestamp with str()/repr()/format; binary forms are "
-            "the 7 components / ISO text under a tzinfo test; SQLite/JSON isoformat, Avro timestamp-micros with integer arithmetic; no float seconds on storage paths",
+            "the 7 components / ISO text under a tzinfo test; SQLite/JSON isoformat, Avro timestamp-micros with integer arithmetic; no float seconds on storage paths; no astimezone()/fromtimestamp()/now() on a possibly naive value in the field constructor; component-wise copies keep fold; no float seconds (timestamp/total_seconds) in serialisers",
             "isoformat/fromisoformat and component tuples are lossless", "DESIGN.md 3/C13"),
     "C14": ("encoder/decoder table symmetry decided from constructors' isinstance dispatch; None-exclusion branch facts at every per-field conversion; line-discipline and option wiring checks; reaching definitions of the fallback descriptor",
             "inverse conversions exist for scalar and list forms of types whose constructor does not accept the JSON form; conversions never run on None; one document per "
@@ -70,7 +71,7 @@ CHECKS = {
             "json.dumps hook/newline behaviour", "DESIGN.md 3/C14"),
     "C15": ("effect analysis of the composition functions; reaching definitions at every field read; symbolic sequence evaluation of extend_record under both flag values; guard facts at first-wins stores",
             "inputs unmodified; field values read only from original inputs; value maps in (record,*others) order resp. exact reverse under replace, descriptors in original "
-            "order with the same flag; first-wins guards in merge and grouped records; timestamp expansion argument order and composition",
+            "order with the same flag; first-wins guards in merge and grouped records; timestamp expansion argument order and composition; no state-dependent skip of a whole descriptor in the merge; pass-through only without datetime fields",
             "ChainMap priority; _asdict returns a fresh dict", "DESIGN.md 3/C15"),
     "C16": ("handler-coverage rule over the per-source try; loop-path and control-dependence checks in main; symbolic slice bounds; reaching definitions of the rewriter's descriptor",
             "per-source isolation with a catch-all covering open/iterate/close; every sliced record reaches the writer unless --list; slice = (skip, skip+count) over the filtered "
@@ -78,15 +79,15 @@ CHECKS = {
             "weakest assurance of the set: skip/count arithmetic, option interaction and cross-writer equality are not decided", "DESIGN.md 3/C16"),
     "C17": ("pairing/typestate over all writer classes: flush-effect sets vs. close(), guard-and-clear of every release, __exit__/__del__ shape, ordering in split and rotation, injectivity of the part suffix, clock provenance of the rotation stamp",
             "close() subsumes flush() (known finding F17b: empty stream/avro output), idempotent close, flush-then-close on exit, write-before-count and >= in split, padded non-truncating "
-            "suffix, rotate-before-open with a clock stamp and no overwrite of an existing target",
+            "suffix, rotate-before-open with a clock stamp and no overwrite of an existing target; stdout detection of the split writer consults netloc and path; the rename target is known not to exist",
             "closing a file object flushes it", "DESIGN.md 3/C17"),
     "C18": ("SQL string flattening with slot classification (quoted identifier / type-table slot / bound value); def-use of batch_size; transaction typestate; SQLite affinity computation over every emitted column type; WHERE-clause conjunct analysis",
             "identifiers quoted, values bound; batch size only drives commit cadence; explicit transaction cycle, commit before close; DDL before insert keyed by the whole descriptor; "
-            "affinities keep the Python form (TEXT fallback at both sites); every table enumerated",
+            "affinities keep the Python form (TEXT fallback at both sites); every table enumerated; update_descriptor_columns cannot return before the field names were compared",
             "SQLite affinity rules", "DESIGN.md 3/C18"),
     "C19": ("dominance of refusal guards; type-table agreement with shape evaluation; embedding/detection shape agreement; value-flow check of the datum handed to fastavro",
             "unmapped type and mixed descriptors refused (whole-descriptor comparison); primitives map back; descriptor embedded as json.dumps(_pack()) and rebuilt through RecordDescriptor; "
-            "datum is _packdict() without float-seconds conversion; integer microsecond reconstruction",
+            "datum is _packdict() without float-seconds conversion; integer microsecond reconstruction; the writer's schema is descriptor_to_schema(<its own descriptor>)",
             "fastavro validates datums against the schema", "DESIGN.md 3/C19"),
     "C20": ("sink rule on encode()/open() of record-derived text; control dependence of header/row writes on the run-change test; def-before-use of the line format; mapping check of the text template",
             "surrogateescape on every text sink; CSV header on every run change with default quoting and one dict for header and row; line format defined whenever the item loop runs, one "
@@ -96,11 +97,11 @@ CHECKS = {
             "every semantically relevant field of every handled AST node kind is read and list fields are consumed entirely; "
             "operator/comparator tables map each ast class to Python's operator; membership lambdas pass the container first; "
             "List/Tuple build the same container type; Type-matcher special methods exist and delegate to the matching operator; "
-            "compiled engine evaluates the unchanged text in eval mode with the shared namespace",
+            "compiled engine evaluates the unchanged text in eval mode with the shared namespace; Type.<t> skips a value only when it is the missing-attribute sentinel",
             "ast._fields of the running interpreter; the reference operator map", "DESIGN.md 3/C07"),
     "C08": ("exhaustive static dispatch table: abstract evaluation of comparison methods on a foreign operand + Python data-model dispatch rules",
             "outcome of every cell operator x position x operand kind x engine computed from source (1024+ cells), sentinel "
-            "provenance (3-arg getattr on all paths), sentinel special methods, BinOp guard, helpers skip missing fields",
+            "provenance (3-arg getattr on all paths), sentinel special methods, BinOp guard, helpers skip missing fields; helper loops skip only the missing field (control returns to the loop header); __getattr__ of record classes raises only AttributeError",
             "the data-model table for builtins (printed in evidence); the table was validated cell-by-cell against a dynamic "
             "sweep at development time (tools/c08_dynamic.py, 0 disagreements on the pinned and the repaired tree)", "DESIGN.md 3/C08"),
     "C09": ("invocation-site inventory; dominator/branch-fact queries on the interpreter; namespace (bind vs vet) set comparison; effect scan",
